@@ -76,6 +76,9 @@ func genWeekends() (content []byte, missing bool) {
 		return Pick(rnd, [][]byte{[]byte("9"), []byte("x\n"), []byte("\n3"), []byte(" 5 "), []byte("/"), {0xff}, {0x80, '1'}, []byte("-1"), []byte("10")}), false
 	case 3:
 		return rnd.Bytes(1 + rnd.Intn(4)), false
+	case 4:
+		// digits outside 0..6: the weekday is the digit modulo 7
+		return Pick(rnd, [][]byte{[]byte("7"), []byte("8"), []byte("9"), []byte("7\n"), []byte("8\n"), []byte("9\n"), []byte(" 9"), []byte("8 ")}), false
 	default:
 		return []byte(fmt.Sprintf("%d\n", rnd.Intn(7))), false
 	}
